@@ -54,9 +54,11 @@ func nestedSpecs(r *Run, detach bool, oracles []string) []Spec {
 			// external group once it exceeds the per-element limit
 			Spec{Name: "nested-coll-parent", Kind: "nested", T: 256, Keys: 2, Classes: []string{"h", "A"}, Oracles: oracles, Digests: map[string][4]uint64{"0": {5, 1, 1, 1}, "1": {5, 2, 1, 1}}, Limit: 255,
 				Extra: func() map[string]int { m := ex2(1, 2, 2, 3, 2); m["limit"] = 1; m["nocdrop"] = 1; return m }()},
+			Spec{Name: "nested-coll-parent-wrapped", Kind: "nested", T: 256, Keys: 2, Classes: []string{"h", "s:A"}, Oracles: oracles, Digests: map[string][4]uint64{"0": {5, 1, 1, 1}, "1": {5, 2, 1, 1}}, Limit: 255,
+				Extra: func() map[string]int { m := ex2(1, 2, 2, 3, 2); m["limit"] = 1; m["nocdrop"] = 1; return m }()},
 			// ... and the two keys collide on EVERY digest level (digest-less list), the children wrapped: a child that
 			// changes re-sets a wrapper around the same child object
-			Spec{Name: "nested-coll-list-wrapped", Kind: "nested", T: 256, Keys: 2, Classes: []string{"h", "s:A", "s:M"}, Oracles: oracles, Digests: map[string][4]uint64{"0": {5, 5, 5, 5}, "1": {5, 5, 5, 5}}, Limit: 255,
+			Spec{Name: "nested-coll-list-wrapped", Kind: "nested", T: 256, Keys: 2, Classes: []string{"h", "s:A"}, Oracles: oracles, Digests: map[string][4]uint64{"0": {5, 5, 5, 5}, "1": {5, 5, 5, 5}}, Limit: 255,
 				Extra: func() map[string]int { m := ex2(1, 2, 2, 3, 2); m["limit"] = 1; m["nocdrop"] = 1; return m }()},
 			Spec{Name: "nested-two-handles", Kind: "nested", T: 256, Keys: 2, Classes: []string{"t", "A", "M"}, Oracles: oracles, Extra: exTwo(0, 2, 3, 2, 2)},
 			Spec{Name: "nested-two-handles-map", Kind: "nested", T: 256, Keys: 2, Classes: []string{"t", "A", "M"}, Oracles: oracles, Extra: exTwo(1, 2, 3, 2, 2)},
@@ -162,6 +164,9 @@ func runC11(r *Run) {
 			// its own nested containers): the detached container must stay a coherent value of its own
 			{Name: "detach-oldhandle-depth3", Kind: "nested", T: 256, Keys: 1, Classes: []string{"h", "A", "M"}, Oracles: or, Extra: exOld(0, 1, 2, 3, 3)},
 			{Name: "detach-oldhandle-map-depth3", Kind: "nested", T: 256, Keys: 1, Classes: []string{"h", "A", "M"}, Oracles: or, Extra: exOld(1, 1, 2, 3, 3)},
+			// a detached container offered back at an invalid position: the refusal must leave it the intact,
+			// independently stored value it was (and the history goes on through its handle)
+			{Name: "detach-rejected-reattach", Kind: "nested", T: 256, Keys: 2, Classes: []string{"t", "h", "A"}, Oracles: or, Extra: func() map[string]int { m := ex(0, 2, 2, 2, 2); m["rej"] = 1; return m }()},
 			{Name: "detach-nodedup-arr", Kind: "nested", T: 256, Keys: 2, Classes: []string{"t", "A"}, Oracles: []string{"sem", "struct", "inline", "reach", "reopen"}, Extra: exND(0), Depth: 5},
 			{Name: "detach-nodedup-map", Kind: "nested", T: 256, Keys: 2, Classes: []string{"t", "M"}, Oracles: []string{"sem", "struct", "inline", "reach", "reopen"}, Extra: exND(1), Depth: 5},
 		}
